@@ -22,7 +22,7 @@ ASSUME = [
 ]
 ALL = ["plain", "with", "nowait", "kill", "broken_exit", "broken_kill", "timeout", "gc", "never_started", "errors",
        "reusable_resize", "reusable_broken", "reusable_timeout", "nested", "nested_kill"]
-QUICK = ["plain", "nowait", "kill", "broken_exit", "gc", "never_started", "reusable_resize", "reusable_broken"]
+QUICK = ["plain", "nowait", "kill", "nested_kill", "broken_exit", "gc", "never_started", "reusable_resize", "reusable_broken"]
 
 
 def model_ledgers(hists, psutil):
